@@ -32,7 +32,7 @@ CHECKS = {
    technique="deterministic simulation of the process environment (virtual disk + cwd, getwd fault) with a reference filter model; seeded search with minimised replay; race-detector lane"),
  "C20": dict(
    level=("exploration", "The real process.go protocol (semaphore, WaitGroup, errgroup, callbacks, mutex) runs against simulated shellcheck/pyflakes whose latency, completion order and failures are seeded adversarial choices; decided: expected invocation multiset with sanitised stdin (reference model from the YAML via yaml.v3), one diagnostic per printed issue at the run: key with valid offsets, at every kernel step running processes <= NumCPU, at return nothing alive or uncollected (also on the error path), no deadlock, injected tool failure => fatal error. Interleavings and fault patterns are sampled: exploration.", "DESIGN.md section 4 (C20)"),
-   note="Trusts: simulated os/exec contract (StdinPipe before Start, Output/CombinedOutput, ExitError), tool models (harness/tools.go), simulated clock; stdin and output pipes hold 64 KiB as on Linux; one script of the pool (80 KiB) is larger than that.",
+   note="Trusts: simulated os/exec contract (StdinPipe before Start, Output/CombinedOutput, ExitError), tool models (harness/tools.go), simulated clock; stdin and output pipes hold 64 KiB as on Linux; one script of the pool (80 KiB) is larger than that; the second call on a long-lived Linter, two lint calls in flight at once (two Linters) and a tool that does not read its input to the end are sampled as variants.",
    technique="deterministic simulation: simulated process table + discrete-event clock + seeded scheduler, tool-failure injection, step-wise invariants, reference model of shells/sanitising"),
  "C10": dict(
    level=("exploration", "Seeded search over multi-repository worlds x argument subsets/orders x goroutine schedules of LintFiles x NumCPU, deciding: per-file result == the file linted alone (executable reference), attribution == nearest containing repository (reference model) for every argument order, each callee defect exactly once per run, linearizability of the two caches' concurrent histories (porcupine) for defective callees, immutability of built-in tables and shared configs (reflection fingerprints), absence of data races (the same worlds on the -race build under an invisible baton), no deadlock. Schedules are sampled: exploration.", "DESIGN.md section 4 (C10)"),
